@@ -11,6 +11,11 @@ import GemseoVerif.Lemmas.C08Scc
 import GemseoVerif.Lemmas.C08Coupling
 import GemseoVerif.Lemmas.C08Chain
 import GemseoVerif.Lemmas.C08Perm
+import GemseoVerif.Lemmas.C08Lin
+import GemseoVerif.Lemmas.C08Par
+import GemseoVerif.Lemmas.C08Mda
+import GemseoVerif.Lemmas.C08Init
+import GemseoVerif.Lemmas.C08Grammar
 
 namespace GV.C08
 
@@ -316,6 +321,191 @@ theorem chain_equals_monolithic (bs : List BlockSpec) (e : Env)
   intro b c hbc k hkb hkc
   exact hbc k hkc (List.mem_append_left _ hkb)
 
+/-- The blocks attached to the groups of one stage are pairwise independent (none writes a name
+    another one reads or writes): they may run in parallel (`mdachain_parallelize_tasks`). -/
+theorem stage_blocks_independent (ds : List Disc) (spec : List Nat → BlockSpec)
+    (hcons : ∀ i j v, i ≠ j → v ∈ outputsAt ds i → v ∉ outputsAt ds j)
+    (hw : ∀ g k, k ∈ (spec g).writes → ∃ i ∈ g, k ∈ outputsAt ds i)
+    (he : ∀ g k, k ∈ (spec g).ext → ∃ i ∈ g, k ∈ inputsAt ds i)
+    (s : Nat) (hs : s < (sequence ds).length) :
+    ((sequence ds)[s].map spec).Pairwise Independent := by
+  have hnd : ((sequence ds)[s]).Nodup := by
+    have := (List.nodup_flatten.1 ((each_once ds).nodup_iff.2 List.nodup_range)).1
+    have hsub : ((sequence ds)[s]).Sublist (sequence ds).flatten :=
+      List.sublist_flatten_of_mem (List.getElem_mem hs)
+    have hfl : (sequence ds).flatten.Nodup := by
+      rw [sequence_eq]; exact sequenceOf_flatten_nodup (isMutual_edge ds)
+    exact hfl.sublist hsub
+  rw [List.pairwise_map]
+  refine List.Pairwise.imp_of_mem ?_ hnd
+  intro b c hb hc hbc
+  have hbf : b ∈ (sequence ds).flatten := List.mem_flatten.2 ⟨_, List.getElem_mem hs, hb⟩
+  have hcf : c ∈ (sequence ds).flatten := List.mem_flatten.2 ⟨_, List.getElem_mem hs, hc⟩
+  have hdisj : ∀ i ∈ b, i ∉ c := by
+    have hbf' := hbf; have hcf' := hcf
+    rw [sequence_eq] at hbf' hcf'
+    exact groups_disjoint_of_ne (isMutual_edge ds) hbf' hcf' hbc
+  -- no name written by a member of `x` is read or written by a member of `y`, for x ≠ y in the stage
+  have key : ∀ x y, x ∈ (sequence ds)[s] → y ∈ (sequence ds)[s] → x ≠ y → (∀ i ∈ x, i ∉ y) →
+      ∀ k ∈ (spec x).writes, k ∉ (spec y).ext ++ (spec y).writes := by
+    intro x y hx hy hxy hd k hkx hky
+    obtain ⟨i, hix, hki⟩ := hw x k hkx
+    rcases List.mem_append.1 hky with hky | hky
+    · obtain ⟨j, hjy, hkj⟩ := he y k hky
+      have hij : i ≠ j := fun e => hd i hix (e ▸ hjy)
+      apply same_stage_independent ds s hs x y hx hy i j hix hjy hxy
+      unfold outputsAt at hki
+      unfold inputsAt at hkj
+      split at hki
+      · rename_i a ha
+        split at hkj
+        · rename_i b' hb'
+          exact ⟨a, b', ha, hb', hij, k, hki, hkj⟩
+        · simp at hkj
+      · simp at hki
+    · obtain ⟨j, hjy, hkj⟩ := hw y k hky
+      have hij : i ≠ j := fun e => hd i hix (e ▸ hjy)
+      exact hcons i j k hij hki hkj
+  exact ⟨key c b hc hb (Ne.symm hbc) (fun i hic hib => hdisj i hib hic),
+    key b c hb hc hbc hdisj⟩
+
+/-- `parallel_equals_sequential`: independent blocks executed on the same input data with their
+    outputs merged afterwards (`MDOParallelChain._execute`) return the same data as the blocks
+    executed one after the other (`MDOChain._execute`). -/
+theorem parallel_equals_sequential (bs : List BlockSpec) (e : Env)
+    (hind : bs.Pairwise Independent)
+    (hcongr : ∀ b ∈ bs, ∀ e e' : Env, (∀ k ∈ b.ext ++ b.writes, e.val k = e'.val k) →
+      ∀ k ∈ b.writes, (b.run e).val k = (b.run e').val k)
+    (hdef : ∀ b ∈ bs, ∀ k ∈ b.writes, ((b.run e).val k).isSome) :
+    ∀ k, (parEval (bs.map (fun b => (b.run, b.writes))) e).val k =
+      (chainEval (bs.map (·.run)) e).val k :=
+  par_eq_seq bs e hind hcongr hdef
+
+/-- `MDAChain` with sequential tasks is the chain of the blocks (discipline or inner MDA) of the
+    flattened sequence; with parallel tasks (`mdachain_parallelize_tasks`) it returns the same
+    data, provided the blocks of each stage are independent (`stage_blocks_independent`), their
+    outputs only depend on their own footprint and are defined whenever `Inv` holds. -/
+theorem mda_chain_is_chain_of_blocks (seq : List (List (List Nat))) (spec : List Nat → BlockSpec)
+    (run : Nat → Block) (requiresMda : List Nat → Bool) (solve : List Nat → Block)
+    (hrun : ∀ g, (spec g).run = blockOfGroup run requiresMda solve g) (e : Env) :
+    mdaChainEval seq run requiresMda solve (fun g => (spec g).writes) false e =
+        chainEval (seq.flatten.map (blockOfGroup run requiresMda solve)) e ∧
+    ∀ (Inv : Env → Prop), (∀ e e', Env.Same e e' → Inv e → Inv e') →
+      (∀ g e, Inv e → Inv ((spec g).run e)) →
+      (∀ g e e', Env.Same e e' → Env.Same ((spec g).run e) ((spec g).run e')) →
+      (∀ g, ∀ e e' : Env, (∀ k ∈ (spec g).ext ++ (spec g).writes, e.val k = e'.val k) →
+        ∀ k ∈ (spec g).writes, ((spec g).run e).val k = ((spec g).run e').val k) →
+      (∀ g e, Inv e → ∀ k ∈ (spec g).writes, (((spec g).run e).val k).isSome) →
+      (∀ st ∈ seq, (st.map spec).Pairwise Independent) → Inv e →
+      Env.Same (mdaChainEval seq run requiresMda solve (fun g => (spec g).writes) true e)
+        (chainEval (seq.flatten.map (blockOfGroup run requiresMda solve)) e) :=
+  ⟨mdaChainEval_seq seq run requiresMda solve _ e,
+   fun Inv h1 h2 h3 h4 h5 h6 h7 =>
+     mdaChainEval_par seq spec run requiresMda solve hrun Inv h1 h2 h3 h4 h5 h6 e h7⟩
+
+/-- `chain_equals_monolithic` for `MDAChain`: executing the processes built from
+    `CouplingStructure.sequence` (a discipline for a weakly coupled one, an inner MDA for a
+    group) returns data in which the equations of every discipline and every group hold, and it is
+    the only such data extending the inputs — whatever the listing order (the statement holds
+    for every `ds`). Assumptions: each output is computed by one discipline, a block reads /
+    writes only names of its members and does not read its own outputs from outside, and each
+    block finds what it needs when its turn comes (`Pre`). -/
+theorem mda_chain_equals_monolithic (ds : List Disc) (spec : List Nat → BlockSpec)
+    (run : Nat → Block) (requiresMda : List Nat → Bool) (solve : List Nat → Block)
+    (outsOf : List Nat → List String)
+    (hrun : ∀ g, (spec g).run = blockOfGroup run requiresMda solve g)
+    (hcons : ∀ i j v, i ≠ j → v ∈ outputsAt ds i → v ∉ outputsAt ds j)
+    (hw : ∀ g k, k ∈ (spec g).writes → ∃ i ∈ g, k ∈ outputsAt ds i)
+    (he : ∀ g k, k ∈ (spec g).ext → ∃ i ∈ g, k ∈ inputsAt ds i)
+    (hself : ∀ g, ∀ k ∈ (spec g).ext, k ∉ (spec g).writes)
+    (e : Env)
+    (hpre : ∀ pre b post, (sequence ds).flatten.map spec = pre ++ b :: post →
+      b.Pre (chainEval (pre.map (·.run)) e)) :
+    (∀ g ∈ (sequence ds).flatten,
+      (spec g).Sat (mdaChainEval (sequence ds) run requiresMda solve outsOf false e)) ∧
+    ∀ e' : Env, (∀ g ∈ (sequence ds).flatten, (spec g).Sat e') →
+      (∀ k, (∀ g ∈ (sequence ds).flatten, k ∉ (spec g).writes) → e'.val k = e.val k) →
+      ∀ k, e'.val k = (mdaChainEval (sequence ds) run requiresMda solve outsOf false e).val k := by
+  have hvalid := sequence_schedule_valid ds spec hcons hw he
+  have hruns : ((sequence ds).flatten.map spec).map (·.run) =
+      (sequence ds).flatten.map (blockOfGroup run requiresMda solve) := by
+    rw [List.map_map]; apply List.map_congr_left; intro g _; simp [Function.comp, hrun]
+  obtain ⟨h1, h2⟩ := chain_equals_monolithic ((sequence ds).flatten.map spec) e hvalid hpre
+    (fun b hb => by obtain ⟨g, _, rfl⟩ := List.mem_map.1 hb; exact hself g)
+  rw [mdaChainEval_seq, ← hruns]
+  refine ⟨fun g hg => h1 _ (List.mem_map.2 ⟨g, hg, rfl⟩), fun e' hsat hsame => ?_⟩
+  apply h2 e'
+  · intro b hb; obtain ⟨g, hg, rfl⟩ := List.mem_map.1 hb; exact hsat g hg
+  · intro k hk
+    exact hsame k (fun g hg => hk _ (List.mem_map.2 ⟨g, hg, rfl⟩))
+
+/-- `chain_equals_monolithic` for the affine disciplines the driver executes (`LinDisc.run`, the
+    model of the harness discipline): if the listing is a valid schedule (no discipline writes a
+    name read or written by an earlier one) and every input is given or computed earlier, the
+    data returned by the chain satisfies every equation `out = const + Σ coef · input`, and it is
+    the only such data extending the inputs: the exact monolithic solution. -/
+theorem lin_chain_equals_monolithic (lds : List WFLin) (e : Env)
+    (hvalid : lds.Pairwise (fun b c => ∀ k ∈ c.1.writes, k ∉ b.1.reads ∧ k ∉ b.1.writes))
+    (hav : InputsAvailable lds e) :
+    (∀ d ∈ lds, ∀ o ∈ d.1.outs, ∃ v,
+        o.eval (chainEval (lds.map (fun d => d.1.run)) e) = some v ∧
+        (chainEval (lds.map (fun d => d.1.run)) e).val o.name = some v) ∧
+    ∀ e' : Env,
+      (∀ d ∈ lds, ∀ o ∈ d.1.outs, ∃ v, o.eval e' = some v ∧ e'.val o.name = some v) →
+      (∀ k, (∀ d ∈ lds, k ∉ d.1.writes) → e'.val k = e.val k) →
+      ∀ k, e'.val k = (chainEval (lds.map (fun d => d.1.run)) e).val k := by
+  have hv : (linBlocks lds).Pairwise NoBackWrite := by
+    unfold linBlocks
+    rw [List.pairwise_map]
+    refine hvalid.imp ?_
+    intro b c hbc k hkc hkb
+    rcases List.mem_append.1 hkb with h | h
+    · exact (hbc k hkc).1 h
+    · exact (hbc k hkc).2 h
+  have hself : ∀ b ∈ linBlocks lds, ∀ k ∈ b.ext, k ∉ b.writes := by
+    intro b hb k hk
+    obtain ⟨d, _, rfl⟩ := List.mem_map.1 hb
+    exact d.2.not_self k hk
+  obtain ⟨h1, h2⟩ := chain_equals_monolithic (linBlocks lds) e hv (linBlocks_pre lds e hav) hself
+  rw [linBlocks_run] at h1 h2
+  refine ⟨fun d hd => h1 _ (List.mem_map.2 ⟨d, hd, rfl⟩), fun e' hsat' hsame => ?_⟩
+  apply h2 e'
+  · intro b hb
+    obtain ⟨d, hd, rfl⟩ := List.mem_map.1 hb
+    exact hsat' d hd
+  · intro k hk
+    apply hsame k
+    intro d hd
+    exact hk _ (List.mem_map.2 ⟨d, hd, rfl⟩)
+
+/-! ### Chain grammars and the initialization order -/
+
+/-- `MDOChain._initialize_grammars`: the inputs of a chain are exactly the names read by a
+    discipline and produced by no earlier discipline, its outputs are all the outputs; so giving
+    a value to every chain input makes every discipline find its inputs when its turn comes. -/
+theorem chain_grammar_spec (ds : List Disc) :
+    (∀ v, v ∈ (chainGrammar ds).1 ↔
+      ∃ pre d post, ds = pre ++ d :: post ∧ v ∈ d.inputs ∧ ∀ d' ∈ pre, v ∉ d'.outputs) ∧
+    (∀ v, v ∈ (chainGrammar ds).2 ↔ ∃ d ∈ ds, v ∈ d.outputs) ∧
+    (∀ given : String → Prop, (∀ k ∈ (chainGrammar ds).1, given k) →
+      ∀ pre d post, ds = pre ++ d :: post → ∀ k ∈ d.inputs,
+        given k ∨ ∃ d' ∈ pre, k ∈ d'.outputs) :=
+  ⟨mem_chainGrammar_inputs ds, mem_chainGrammar_outputs ds, chainGrammar_inputs_suffice ds⟩
+
+/-- `order_disciplines_from_default_inputs` is sound and complete: when it returns, the order is
+    a permutation of the disciplines in which every discipline finds each of its inputs among its
+    defaults, the names available at run time or the outputs of earlier disciplines; and it
+    returns (does not raise) whenever such an order exists. -/
+theorem init_order_spec (ds : List Disc) (defaults : Nat → List String) (avail : List String) :
+    (∀ order, initOrder ds defaults ds.length (List.range ds.length) avail = some order →
+      order.Perm (List.range ds.length) ∧ ValidOrder ds defaults avail order) ∧
+    ((∃ order, order.Perm (List.range ds.length) ∧ ValidOrder ds defaults avail order) →
+      (initOrder ds defaults ds.length (List.range ds.length) avail).isSome) := by
+  refine ⟨fun order h => ⟨?_, ?_⟩, fun hex => ?_⟩
+  · exact initOrder_perm ds defaults _ _ avail order List.nodup_range h
+  · exact initOrder_valid ds defaults _ _ avail order h
+  · exact initOrder_complete ds defaults _ _ avail (by simp) hex
+
 /-! ### The listing order does not matter (`order_invariance`) -/
 
 /-- Mutual dependency is a property of the disciplines, not of the order in which they are
@@ -357,6 +547,19 @@ theorem order_invariance (ds ds' : List Disc) (σ τ : Nat → Nat) (h : Relisti
   obtain ⟨g', hg', hiff⟩ := this g hg
   exact ⟨g', hg', fun k hk => hiff k (h.length_eq ▸ hk)⟩
 
+/-- `order_invariance`, stages: the stage at which a discipline is scheduled does not depend on
+    the listing order either — discipline `i` of the new listing is at stage `k` of the new
+    sequence iff the same discipline (`σ i` in the old listing) is at stage `k` of the old one.
+    Together with `order_invariance` (same groups): the sequences of two listings of the same
+    disciplines are equal as lists of sets of sets. -/
+theorem stage_order_invariance (ds ds' : List Disc) (σ τ : Nat → Nat) (h : Relisting ds ds' σ τ)
+    (k i : Nat) (hi : i < ds.length) :
+    Renumber.InStage (sequence ds') k i ↔ Renumber.InStage (sequence ds) k (σ i) := by
+  rw [sequence_eq, sequence_eq]
+  have := h.renumber.inStage_iff k i hi
+  rw [h.length_eq] at this ⊢
+  exact this
+
 /-! ### Non-vacuity: a five-discipline example with a cycle, a self-loop and an isolated discipline -/
 
 /-- `A: x ↦ a`, `B: a,c ↦ b`, `C: b ↦ c`, `D: c,d ↦ d`, `E` without data. -/
@@ -392,7 +595,52 @@ example : Relisting exampleDiscs exampleDiscsRev (fun i => 4 - i) (fun i => 4 - 
     simp [exampleDiscs] at hi
     have : i = 0 ∨ i = 1 ∨ i = 2 ∨ i = 3 ∨ i = 4 := by omega
     rcases this with rfl | rfl | rfl | rfl | rfl <;> rfl
--- the groups are the same sets, numbered differently
+-- the groups are the same sets, numbered differently, at the same stages
 example : sequence exampleDiscsRev = [[[4]], [[2, 3]], [[0], [1]]] := by decide +kernel
+example : Renumber.InStage (sequence exampleDiscsRev) 1 3 := ⟨[2, 3], by decide +kernel, by decide⟩
+example : Renumber.InStage (sequence exampleDiscs) 1 (4 - 3) := ⟨[1, 2], by decide +kernel, by decide⟩
+
+-- grammars and initialization order of the five-discipline example
+example : chainGrammar exampleDiscs = (["x", "c", "d"], ["a", "b", "c", "d"]) := by decide +kernel
+example : initOrder exampleDiscs (fun i => if i = 1 then ["c"] else if i = 3 then ["d"] else [])
+    5 (List.range 5) ["x"] = some [0, 1, 2, 3, 4] := by decide +kernel
+-- without a default value for `c`, B and C wait for each other: no order exists
+example : initOrder exampleDiscs (fun i => if i = 3 then ["d"] else [])
+    5 (List.range 5) ["x"] = none := by decide +kernel
+
+/-! ### Non-vacuity of the composition theorems: `A: a = 1 + 2x`, `B: b = 3a`, input `x = 3` -/
+
+def exA : LinDisc := ⟨⟨"A", ["x"], ["a"]⟩, [⟨"a", 1, [("x", 2)]⟩]⟩
+def exB : LinDisc := ⟨⟨"B", ["a"], ["b"]⟩, [⟨"b", 0, [("a", 3)]⟩]⟩
+
+theorem exA_wf : exA.WF := ⟨by decide, by decide⟩
+theorem exB_wf : exB.WF := ⟨by decide, by decide⟩
+
+def exChain : List WFLin := [⟨exA, exA_wf⟩, ⟨exB, exB_wf⟩]
+
+-- the listing A, B is a valid schedule and every input is available …
+example : exChain.Pairwise (fun b c => ∀ k ∈ c.1.writes, k ∉ b.1.reads ∧ k ∉ b.1.writes) := by
+  decide
+example : InputsAvailable exChain [("x", 3)] := by
+  intro pre d post hsplit k hk
+  match pre, hsplit with
+  | [], h =>
+    simp only [exChain, List.nil_append, List.cons.injEq] at h
+    obtain ⟨rfl, _⟩ := h
+    left
+    simp [LinDisc.reads, LinOut.reads, exA] at hk
+    subst hk; rfl
+  | [p], h =>
+    simp only [exChain, List.cons_append, List.nil_append, List.cons.injEq] at h
+    obtain ⟨rfl, rfl, _⟩ := h
+    right
+    exact ⟨_, List.mem_singleton.2 rfl, by
+      simp [LinDisc.reads, LinOut.reads, exB] at hk
+      subst hk; decide⟩
+  | _ :: _ :: _, h =>
+    simp [exChain] at h
+-- … and the chain computes a = 7, b = 21
+example : (chainEval (exChain.map (fun d => d.1.run)) [("x", 3)]).val "b" = some 21 := by
+  decide +kernel
 
 end GV.C08
